@@ -18,6 +18,10 @@ pub struct Case {
     pub program: Program,
     pub schedule: Schedule,
     pub clock: Clock,
+    /// Run on the repository's own `StdLibState` (its glue - hook delegations, component wiring -
+    /// instead of the simulator's state type) rather than on `SimState`.
+    #[serde(default)]
+    pub real_state: bool,
 }
 
 pub struct C01;
@@ -139,7 +143,11 @@ impl Property for C01 {
         let mut fault_rng = Rng::split(run_seed, 3);
         let mut hash_rng = Rng::split(run_seed, 4);
         let clock = Clock::default();
-        let cfg = gen::scope_cfg(&mut cfg_rng);
+        let mut cfg = gen::scope_cfg(&mut cfg_rng);
+        // Every eighth run executes on the repository's own state type (no \tracingmacros there:
+        // its hook prints to the real stdout).
+        let real_state = run_index % 8 == 5;
+        cfg.no_tracingmacros = real_state;
         let program = gen::gen_scope_program(&cfg, &mut work_rng, clock.year, clock.day);
         // Configuration A (fault-free) for 3 of 4 runs; configuration B (crash/restart) otherwise.
         let schedule = if run_index % 4 == 3 && std::env::var("VERIF_NO_FAULTS").is_err() {
@@ -157,12 +165,19 @@ impl Property for C01 {
             program,
             schedule,
             clock,
+            real_state,
         }
     }
 
     fn evaluate(&self, case: &Case) -> Evaluation {
         let mut ev = Evaluation::default();
-        let (job, rendered) = build_job(&case.program, &case.clock);
+        let (mut job, rendered) = build_job(&case.program, &case.clock);
+        job.real_state = case.real_state;
+        ev.bump(if case.real_state {
+            "runs_on_real_StdLibState"
+        } else {
+            "runs_on_SimState"
+        });
         let trace = run_job(&job, &case.schedule, true);
         let faulty = case.schedule.fault_count() > 0;
         ev.bump(if faulty { "config_B_runs" } else { "config_A_runs" });
